@@ -37,13 +37,13 @@ import (
 // executing it; the log of a worker that died is kept.
 
 const (
-	c30ModeTracks   = 1  // local audio+video tracks are added before the first step
-	c30ModeData     = 2  // a local data channel is created before the first step
-	c30ModeAudioOnl = 4  // media engine: Opus only
-	c30ModeVideoOnl = 8  // media engine: VP8 only (4|8: no codecs at all)
-	c30ModeReoffer  = 16 // after the steps: CreateOffer + SetLocalDescription again
-	c30ModeNoSettle = 32 // Close immediately, without the settle delay
-	c30ModeLite     = 64 // local agent is ICE lite
+	c30ModeTracks   = 1   // local audio+video tracks are added before the first step
+	c30ModeData     = 2   // a local data channel is created before the first step
+	c30ModeAudioOnl = 4   // media engine: Opus only
+	c30ModeVideoOnl = 8   // media engine: VP8 only (4|8: no codecs at all)
+	c30ModeReoffer  = 16  // after the steps: CreateOffer + SetLocalDescription again
+	c30ModeNoSettle = 32  // Close immediately, without the settle delay
+	c30ModeLite     = 64  // local agent is ICE lite
 	c30ModeNoAnswer = 128 // accepted remote offers are not answered (the next step meets have-remote-offer)
 	c30ModeVideoTrk = 256 // only a local video track is added (single-section offers)
 	c30ModeUndeclNA = 512 // SettingEngine.SetHandleUndeclaredSSRCWithoutAnswer(true)
@@ -478,6 +478,11 @@ func c30WorkerMain() {
 				t0 := time.Now()
 				go func() {
 					f := strings.Fields(line)
+					if line == "bases" {
+						ch <- c30EncodeBases(c30PionBases())
+
+						return
+					}
 					if len(f) > 0 && f[0] == "p" {
 						ch <- c30RunPair(f)
 					} else {
@@ -662,4 +667,48 @@ func c30Trivial(a []string, out string) bool {
 	}
 
 	return false
+}
+
+func c30EncodeBases(bs []c30Base) string {
+	out := []string{"bases", strconv.Itoa(len(bs))}
+	for _, b := range bs {
+		out = append(out, hx([]byte(b.name)), b.typ, strconv.Itoa(b.mode), hx([]byte(b.sdp)))
+	}
+
+	return strings.Join(out, " ")
+}
+
+// c30PionBasesInWorker generates the pion offers/answers in a worker child process: real PeerConnections are
+// negotiated and closed for them, and a tree that panics in a background goroutine on its own valid
+// descriptions must not take the generator down (the s ops then exhibit the failing input).
+func c30PionBasesInWorker() []c30Base {
+	if os.Getenv("WVH_C30_INPROC") != "" {
+		return c30PionBases()
+	}
+	w := c30Spawn()
+	if w == nil {
+		return nil
+	}
+	res, alive := w.run("bases", 90*time.Second)
+	if !alive {
+		fmt.Fprintf(os.Stderr, "C30: the worker generating pion descriptions died (%s); continuing with the fixed bases\n", w.signature())
+
+		return nil
+	}
+	w.stop()
+	f := strings.Fields(res)
+	if len(f) < 2 || f[0] != "bases" {
+		return nil
+	}
+	n, err := strconv.Atoi(f[1])
+	if err != nil || len(f) != 2+4*n {
+		return nil
+	}
+	out := []c30Base{}
+	for i := 0; i < n; i++ {
+		mode, _ := strconv.Atoi(f[2+4*i+2])
+		out = append(out, c30Base{string(unhx(f[2+4*i])), f[2+4*i+1], mode, string(unhx(f[2+4*i+3]))})
+	}
+
+	return out
 }
